@@ -1,7 +1,9 @@
-//! C12 helpers: the harness-side specification of the hex colour syntax (independent of palette's parser), builders for
+//! C12 helpers: the harness-side specification of the hex colour syntax (independent of palette's parser), a builder for
 //! symbolic strings that are valid UTF-8 by construction, and a stack `fmt::Write` sink for the formatting round trips.
-//! Nothing in here calls the code under test except `FromDigits` for the float types (widening with `into_format`,
-//! which is what the `FromStr` docs promise: "16/32 bit components or less").
+//! Nothing in here calls the code under test except `check_parse` (the obligation itself) and `FromDigits` for the float
+//! types (widening with `into_format`, which is what the `FromStr` docs promise: "16/32 bit components or less").
+//! Everything used by the parse harnesses is loop-free on purpose, see the NOTE on `spec` (only `Sink::write_str`, used by the
+//! formatting harnesses, loops - at most one component's digits per call).
 
 use core::str::FromStr;
 use palette::rgb::{Rgb, Rgba};
@@ -286,16 +288,4 @@ pub fn hexdigit(nibble: u32, upper: bool) -> u8 {
     } else {
         b'a' + (n - 10)
     }
-}
-
-/// Length and the first 24 bytes of a string as three little-endian words (zero padded). Loop-free.
-pub fn key3(s: &str) -> (usize, [u64; 3]) {
-    let b = s.as_bytes();
-    let n = b.len();
-    let mut w = [0u64; 3];
-    macro_rules! byte {
-        ($($i:expr),*) => { $( if $i < n { w[$i / 8] |= (b[$i] as u64) << (8 * ($i % 8)); } )* };
-    }
-    byte!(0, 1, 2, 3, 4, 5, 6, 7, 8, 9, 10, 11, 12, 13, 14, 15, 16, 17, 18, 19, 20, 21, 22, 23);
-    (n, w)
 }
